@@ -349,6 +349,21 @@ def r9_msgpack(ctx):
             keys |= {k.value for k in v.keys if isinstance(k, ast.Constant)}
         always = keys if always is None else always & keys
         sometimes |= keys
+    # a field may be left out only when it IS None (the decoder's default):
+    # a truthiness test also drops [], 0, '' and b'' - an acknowledgement
+    # without arguments would arrive as None
+    for p in run.paths:
+        for c in p.conds:
+            a = run.expand(c.atom)
+            isnone = isinstance(a, ast.Compare) and \
+                isinstance(a.ops[0], ast.Is) and \
+                is_const(a.comparators[0], None)
+            ctx.check(isnone, 'Packet._to_dict', 'optional fields are left '
+                      'out only under an `is None` test', key='msgpack-'
+                      'truthiness', reason='_to_dict decides on `%s`: a '
+                      'falsy but meaningful value (an empty argument list, '
+                      '0) is dropped from the message and decoded as None'
+                      % U(a)[:40], where=where(td))
     req, opt = set(), set()
     # the local holding the unpacked message: assigned from a call and
     # read with constant string keys
